@@ -1,0 +1,168 @@
+//go:build verif
+
+package main
+
+// Verification hook (build tag verif only, add-only): a line protocol that calls the option and location plumbing of
+// this package — locationMatch, Config.GetStoreOptionsFor, cmdStoreOptions.MergedWith, storeFromLocation,
+// indexStoreFromLocation — on the harness's inputs.  Started by setting DESYNC_VERIF_STOREOPTS; the normal
+// command line is not touched.
+
+import (
+	"bufio"
+	"encoding/hex"
+	"encoding/json"
+	"fmt"
+	"net/url"
+	"os"
+	"path/filepath"
+	"strings"
+
+	"github.com/folbricht/desync"
+	"github.com/spf13/pflag"
+)
+
+func init() {
+	if os.Getenv("DESYNC_VERIF_STOREOPTS") == "" {
+		return
+	}
+	verifStoreOpts()
+	os.Exit(0)
+}
+
+func verifUnhex(s string) string {
+	if s == "-" {
+		return ""
+	}
+	b, _ := hex.DecodeString(s)
+	return string(b)
+}
+
+func verifParse(loc string) string {
+	u, err := url.Parse(loc)
+	if err != nil {
+		return "scheme=err sname= upath="
+	}
+	return fmt.Sprintf("scheme=%d sname=%s upath=%s", len(u.Scheme), hex.EncodeToString([]byte(u.Scheme)), hex.EncodeToString([]byte(u.Path)))
+}
+
+func verifCmdOptions(args string) (cmdStoreOptions, error) {
+	var o cmdStoreOptions
+	fs := pflag.NewFlagSet("verif", pflag.ContinueOnError)
+	fs.BoolVar(&o.skipVerify, "skip-verify-read", false, "")
+	addStoreOptions(&o, fs)
+	var av []string
+	if args != "-" && args != "" {
+		for _, a := range strings.Split(args, ",") {
+			av = append(av, verifUnhex(a))
+		}
+	}
+	return o, fs.Parse(av)
+}
+
+func verifErrKind(err error) string {
+	switch {
+	case strings.Contains(err.Error(), "multiple configuration entries"):
+		return "err=multiple"
+	case strings.Contains(err.Error(), "Unable to parse"):
+		return "err=parse"
+	}
+	return "err=other:" + hex.EncodeToString([]byte(err.Error()))
+}
+
+func verifStoreOpts() {
+	in := bufio.NewReaderSize(os.Stdin, 1<<20)
+	out := bufio.NewWriter(os.Stdout)
+	defer out.Flush()
+	cwd, _ := os.Getwd()
+	for {
+		line, err := in.ReadString('\n')
+		f := strings.Fields(line)
+		if len(f) > 0 {
+			func() {
+				defer func() {
+					if r := recover(); r != nil {
+						fmt.Fprintf(out, "panic=%s\n", hex.EncodeToString([]byte(fmt.Sprint(r))))
+					}
+				}()
+				switch {
+				case f[0] == "match" && len(f) == 3:
+					pat, loc := verifUnhex(f[1]), verifUnhex(f[2])
+					m := 0
+					if locationMatch(pat, loc) {
+						m = 1
+					}
+					fmt.Fprintf(out, "m=%d %s cwd=%s\n", m, verifParse(loc), hex.EncodeToString([]byte(cwd)))
+				case f[0] == "store" && len(f) == 4:
+					cfg = Config{}
+					if err := json.Unmarshal([]byte(verifUnhex(f[1])), &cfg); err != nil {
+						fmt.Fprintf(out, "bad-config\n")
+						return
+					}
+					loc := verifUnhex(f[2])
+					o, err := verifCmdOptions(f[3])
+					if err != nil {
+						fmt.Fprintf(out, "bad-args\n")
+						return
+					}
+					// the two steps on their own …
+					co, cerr := cfg.GetStoreOptionsFor(loc)
+					lookup := "lookup=ok"
+					if cerr != nil {
+						lookup = "lookup=" + verifErrKind(cerr)
+					}
+					mo := o.MergedWith(co)
+					merged := fmt.Sprintf("msv=%v munc=%v mretry=%d mn=%d", mo.SkipVerify, mo.Uncompressed, mo.ErrorRetry, mo.N)
+					// … and the store made from the location
+					s, err := storeFromLocation(loc, o)
+					if err != nil {
+						fmt.Fprintf(out, "%s %s %s %s cwd=%s\n", verifErrKind(err), lookup, merged, verifParse(loc), hex.EncodeToString([]byte(cwd)))
+						return
+					}
+					res := fmt.Sprintf("ok type=%T", s)
+					if ls, ok := s.(desync.LocalStore); ok {
+						res += fmt.Sprintf(" sv=%v unc=%v retry=%d n=%d", ls.Opt.SkipVerify, ls.Opt.Uncompressed, ls.Opt.ErrorRetry, ls.Opt.N)
+						// the chunk format, by behaviour: which file appears when a chunk is stored
+						c := desync.NewChunk([]byte("verif-storeopts"))
+						if err := ls.StoreChunk(c); err == nil {
+							cid := c.ID()
+							id := cid.String()
+							p := filepath.Join(ls.Base, id[:4], id)
+							_, e1 := os.Stat(p + desync.CompressedChunkExt)
+							_, e2 := os.Stat(p)
+							switch {
+							case e1 == nil && e2 != nil:
+								res += " layers=1"
+							case e2 == nil && e1 != nil:
+								res += " layers=0"
+							default:
+								res += " layers=?"
+							}
+							os.Remove(p)
+							os.Remove(p + desync.CompressedChunkExt)
+						}
+					}
+					s.Close()
+					fmt.Fprintf(out, "%s %s %s %s cwd=%s\n", res, lookup, merged, verifParse(loc), hex.EncodeToString([]byte(cwd)))
+				case f[0] == "index" && len(f) == 3:
+					cfg = Config{}
+					json.Unmarshal([]byte(verifUnhex(f[1])), &cfg)
+					loc := verifUnhex(f[2])
+					o, _ := verifCmdOptions("-")
+					s, name, err := indexStoreFromLocation(loc, o)
+					if err != nil {
+						fmt.Fprintf(out, "%s %s\n", verifErrKind(err), verifParse(loc))
+						return
+					}
+					fmt.Fprintf(out, "ok type=%T name=%s store=%s %s\n", s, hex.EncodeToString([]byte(name)), hex.EncodeToString([]byte(s.String())), verifParse(loc))
+					s.Close()
+				default:
+					fmt.Fprintf(out, "bad-line\n")
+				}
+			}()
+			out.Flush()
+		}
+		if err != nil {
+			return
+		}
+	}
+}
